@@ -102,3 +102,14 @@ Proof.
   eapply RI_reachable; [apply RI_init|exact Hr].
 Qed.
 Print Assumptions C03_no_user_message_while_restarting_partial.
+
+(* The repaired mechanism itself (fix 925aa8b), for every role table and every state: a supervisor's Resume decision reaches
+   the actor as a queued request, and an actor that is not alive — restarting, terminating or terminated — ignores it: state
+   and observations are unchanged, in particular its mailbox stays suspended. *)
+Theorem C03_resume_request_ignored_unless_alive : forall roles s u a e,
+  get s u = Some a -> a_st a <> Alive -> e_msg e = SResumeReq -> process_sys roles s u e = (s, [], false).
+Proof.
+  intros roles s u a e Ha Hst Em. unfold process_sys. rewrite Ha, Em.
+  destruct (a_st a); try reflexivity. congruence.
+Qed.
+Print Assumptions C03_resume_request_ignored_unless_alive.
